@@ -458,6 +458,10 @@ pub fn index_slot<'a>(a: &'a mut V, i: &V) -> R<&'a mut V> {
                     // saturates the machine word: no allocation can even be attempted
                     return Err(Stop::Error("index out of any possible range"));
                 }
+                if *n > 100_000.0 {
+                    // would need a huge allocation: outside modest resources, never executed
+                    return Err(Stop::Budget("index write far beyond the end"));
+                }
                 let k = index_of(*n)?;
                 if k >= arr.seq.len() {
                     if k > 100_000 {
